@@ -16,6 +16,7 @@ _ROT = (8, 1e-14)     # positions of the capped cylinder and of the six-quad box
 _ROTN = (8, 1e-15)    # their unit normals
 
 CFG = dict(
+    modules=["PolyVerif.Props.C18", "PolyVerif.Props.C18Connected"],
     # Transform.lean: the quaternion code (FromTheta, Rotate) the six-quad box and the cylinder's bottom cap are built with
     # PrimLoops.lean: loop nests / bounds / index expressions of UVSphere, UVSphereUnwelded, Hemisphere.UV, Circle.ToMesh, Cylinder.ToMesh
     gen=[dict(tool="facts", mode="c18.cube", out="CubeTable.lean"), dict(spec="transform.json", out="Transform.lean"),
@@ -48,7 +49,11 @@ CFG = dict(
               "cylinder_oneUmbrella_mod_merge", "umbrella_checker_sound", "cubeWelded_oneUmbrella",
               "cubeQuads_oneUmbrella_mod_merge",
               "cubeQuads_construction_from_source", "cylinder_assembly_from_source",
-              "hemisphere_connected", "uvSphereUnwelded_connected_mod_merge", "cylinder_connected_mod_merge"],
+              "hemisphere_connected", "uvSphereUnwelded_connected_mod_merge", "cylinder_connected_mod_merge",
+              # round 2 (Props/C18Connected.lean): FACE connectedness, all parameters
+              "faceConnected_of_oneUmbrella_and_reach", "connected_checker_sound", "manifold_oracle_implies_faceConnected",
+              "uvSphere_faceConnected", "hemisphere_faceConnected", "uvSphereUnwelded_faceConnected_mod_merge",
+              "cylinder_faceConnected_mod_merge", "cubeWelded_faceConnected", "cubeQuads_faceConnected_mod_merge"],
     streams=[dict(name="c18", n=dict(quick=30, thorough=60),
                   ulps={"c18.pos.sphere": _SIN, "c18.possample.sphere": _SIN, "c18.pos.sphereu": _SIN, "c18.pos.hemi": _SIN, "c18.nrm.sphere": _SINN,
                         "c18.pos.cyl": _ROT, "c18.nrm.cyl": _ROTN, "c18.pos.cubeq": _ROT, "c18.nrm.cubeq": _ROTN})],
